@@ -2,11 +2,12 @@
    ExtrOcamlBasic only: bool, list, prod, option, unit, sumbool map to OCaml's; Z, positive, nat
    stay the extracted inductive datatypes. *)
 From Coq Require Import extraction.ExtrOcamlBasic.
-From Verif Require Import Base.Prelude Model.Restrict Model.Iset Model.Count Model.ValueFrom Model.Threshold Model.Slice.
+From Verif Require Import Base.Prelude Model.Restrict Model.Iset Model.Count Model.ValueFrom Model.Threshold Model.Slice Model.Store.
 Extraction "../ocaml/model.ml"
   restrict_idx restrict_cnt in_interval restrict_ts
   fix_iset fix_iset_orig mk_iset k_inter_meta k_inter k_diff_meta k_diff k_union k_union_n
   iset_inter iset_union iset_diff canonicalb mem tot_length
   count_binned bin_sum_cnt count_spec
   value_from threshold_support dropna_support
-  get_range get_closest to_trial_tensor trial_count_rows.
+  get_range get_closest to_trial_tensor trial_count_rows
+  run step.
